@@ -143,7 +143,10 @@ def run_unit(ctx: Ctx, qualname: str) -> None:
                 f"no exception other than {sorted(fc.raises) or 'none'} escapes",
                 pr.where or where_exit,
                 note=f"{ename} escapes (raised at {pr.where})",
-                props=("C04",) if "C04" in fc.props else fc.props,
+                # protocol units: an escaping exception is a C04 matter (their C04 findings are recorded
+                # against C04 only); units that name exception_props (the two servers) count it for
+                # every property that relies on the unit finishing normally
+                props=fc.model_opts.get("exception_props") or (("C04",) if "C04" in fc.props else fc.props),
                 assume_after=False,
             )
         if declared or fc.exceptional == "app":
